@@ -812,7 +812,7 @@ class FnAnalysis:
         q = callee.get("resolved") or callee["qual"]
         nq = norm(q)
         dq = norm(callee["qual"])
-        generics = tuple(norm(g) for g in callee.get("generics", []))
+        generics = tuple(norm(g) for g in callee.get("generics", []) if not g.startswith("'"))
         arg_tys = [self._operand_ty(a) for a in t["args"]]
         mut_idx = [i for i, ty in enumerate(arg_tys) if ty and "&mut" in ty]
         arg_lvs = [self._arg_pointee(st, a) for a in args]
